@@ -479,26 +479,23 @@ def sqrt_contracts(R, ctx, bound):
         ctx.defer(key, jobs[key][1], jobs[key][2], jobs[key][3], lambda resx, key=key: handle(resx, key))
     # translator validation of the sqrt kernels on corner inputs of every octave (term evaluated by z3's own FP vs CPython,
     # and the symbolic vs concrete Scala evaluation)
-    ret = [p for p in ppaths if p.kind == 'return']
-    sret = [p for p in spaths if p.kind == 'return']
     for lo, hi in chunks:
         for x in (lo, hi - 1):
-            for p in ret:
-                if all(pyk.eval_term(c, {i.t: x}) for c in p.pc):
-                    enc = pyk.eval_term(it.it(p.value), {i.t: x})
-                    real = ctx.types.allele_pair_sqrt(x)
-                    R.validation_points += 1
-                    if enc != real:
-                        raise HarnessError(f'translator validation allele_pair_sqrt({x}): real={real} encoded={enc}')
-            for p in sret:
-                if all(pyk.eval_term(c, {iv: x}) for c in p.pc):
-                    enc = pyk.eval_term(p.value.t, {iv: x})
-                    if enc < 0:
-                        enc += 1 << 32
-                    kind, conc = scalak.run_concrete(ctx.P, 'Genotype', 'allelePairSqrt', [x])
-                    R.validation_points += 1
-                    if kind != 'ok' or (conc & 0xFFFFFFFF) != enc:
-                        raise HarnessError(f'Scala allelePairSqrt({x}): symbolic evaluation {enc} != concrete evaluation {kind, conc}')
+            p, enc = pyk.eval_on_paths(ppaths, {i.t: x}, lambda p: it.it(p.value) if p.kind == 'return' else None)
+            try:
+                real = ('ok', ctx.types.allele_pair_sqrt(x))
+            except Exception as e:
+                real = ('raise', type(e).__name__)
+            got = ('none',) if p is None else (('ok', enc) if p.kind == 'return' else ('raise', p.value[0] if p.kind == 'raise' else p.kind))
+            R.validation_points += 1
+            if got != real:
+                raise HarnessError(f'translator validation allele_pair_sqrt({x}): real={real} encoded={got}')
+            p, enc = pyk.eval_on_paths(spaths, {iv: x}, lambda p: p.value.t if p.kind == 'return' else None)
+            kind, conc = scalak.run_concrete(ctx.P, 'Genotype', 'allelePairSqrt', [x])
+            got = ('none',) if p is None else (('ok', enc) if p.kind == 'return' else ('error', p.value[0] if p.kind == 'raise' else p.kind))
+            R.validation_points += 1
+            if got != (kind, conc):
+                raise HarnessError(f'Scala allelePairSqrt({x}): symbolic evaluation {got} != concrete evaluation {kind, conc}')
 
 
 def scala_bijection(R, ctx, bound):
@@ -670,6 +667,9 @@ def run(R):
              'ByteWriter.write_int32 is struct.pack("=i", v): raises outside [-2^31, 2^31), otherwise writes v; ByteReader.read_int32 '
              'returns the signed value written',
              'math.sqrt is the correctly rounded IEEE-754 square root (fp.sqrt RNE); 8*float(i)+1 and the following /2, -0.5 are RNE',
+             'exact integer kernels, if the code uses them, are read exactly: math.isqrt(n) is the r >= 0 with r*r <= n < (r+1)*(r+1), '
+             'int.bit_length, divmod, ** / pow with a small constant exponent; any other library call on a symbolic value stops the check '
+             '(exit 2, naming the call) instead of being given an arbitrary value',
              'in the round-trip and bijection obligations allele_pair_sqrt / allelePairSqrt are replaced by their contract '
              '(tri(k)+j == i, 0<=j<=k<=0xFFFF), which is proved on the real kernels octave by octave in the same run; an octave that '
              'times out is reported as not discharged and shrinks the range actually covered',
